@@ -462,9 +462,9 @@ func stdReadKnown() ([]string, error) {
 	return nil, nil
 }
 
-// stdGenStd is a pure function of (this executable, which links /repo's summaries and lang packages as they are now; the
-// toolchain's std library; the exception file).  Loading ~40 std packages with their dependencies takes 20-90 s, so the
-// result is cached under build/cache keyed by a hash of exactly those inputs plus the summaries sources.
+// stdGenStd is a pure function of (/repo's analysis+internal sources as they are now, which this executable links; the
+// toolchain's std library; this generator; the exception file).  Loading ~40 std packages with their dependencies takes
+// 20-90 s, so the result is cached under build/cache keyed by a hash of exactly those inputs (see stdCacheKey).
 func stdGenStd(repo, out string) error {
 	key, cdir := stdCacheKey(repo)
 	if cdir != "" {
@@ -507,17 +507,45 @@ func stdCacheKey(repo string) (string, string) {
 		return "", ""
 	}
 	h := sha256.New()
-	b, err := os.ReadFile(exe)
-	if err != nil {
-		return "", ""
-	}
-	h.Write(b)
 	h.Write([]byte(stdGoEnv("GOVERSION") + "|" + stdGoEnv("GOROOT") + "|" + stdGoEnv("GOOS") + "|" + stdGoEnv("GOARCH") + "|"))
-	files, _ := filepath.Glob(filepath.Join(repo, "analysis", "summaries", "*.go"))
+	// every input of the generator: all non-test Go sources of /repo's analysis and internal trees (summaries table,
+	// SummaryOfFunc, lang helpers, the dataflow loader and what it imports), go.mod (x/tools version), this generator's
+	// own sources, the exception names.  When the generator's sources cannot be found, the executable itself is hashed.
+	var files []string
+	for _, root := range []string{filepath.Join(repo, "analysis"), filepath.Join(repo, "internal")} {
+		_ = filepath.Walk(root, func(p string, fi os.FileInfo, err error) error {
+			if err != nil {
+				return nil
+			}
+			if fi.IsDir() {
+				if fi.Name() == "testdata" {
+					return filepath.SkipDir
+				}
+				return nil
+			}
+			if strings.HasSuffix(p, ".go") && !strings.HasSuffix(p, "_test.go") {
+				files = append(files, p)
+			}
+			return nil
+		})
+	}
+	files = append(files, filepath.Join(repo, "go.mod"))
+	own := []string{filepath.Join("cmd", "gentables", "gen_std.go"), filepath.Join("cmd", "gentables", "main.go"), filepath.Join("hutil", "load.go")}
+	ownOK := true
+	for _, f := range own {
+		if _, err := os.Stat(f); err != nil {
+			ownOK = false
+		}
+	}
+	if ownOK {
+		files = append(files, own...)
+	} else {
+		files = append(files, exe)
+	}
 	sort.Strings(files)
 	for _, f := range files {
 		if c, err := os.ReadFile(f); err == nil {
-			h.Write([]byte(filepath.Base(f)))
+			h.Write([]byte(f + "\x00"))
 			h.Write(c)
 		}
 	}
